@@ -1,9 +1,122 @@
 import AioModel.Wire
-/-! Driver commands of property C19 (stub until the model exists). -/
+import AioModel.C19
+/-! Driver commands of property C19. -/
 namespace Aio.Driver.C19
-open Aio Aio.Wire
+open Aio Aio.Wire Aio.C19
+
+def showErr : Err → String
+  | .line => "E_LINE"
+  | .badmsg => "E_BADMSG"
+  | .value => "E_VALUE"
+  | .assertion => "E_ASSERT"
+  | .runtime => "E_RUNTIME"
+  | .size => "E_SIZE"
+  | .fuel => "E_FUEL"
+
+def showHdrs (hs : List (Bytes × Bytes)) : String :=
+  if hs.isEmpty then "~" else "&".intercalate (hs.map (fun kv => showHex kv.1 ++ "=" ++ showHex kv.2))
+
+def showList (l : List Bytes) : String :=
+  if l.isEmpty then "~" else ",".intercalate (l.map showHex)
+
+def showEv : Ev → String
+  | .body hs tag data => s!"B{showHdrs hs}:{tag}:{showList data}"
+  | .nestedBegin hs => s!"N{showHdrs hs}("
+  | .nestedEnd => ")"
+  | .done => "END"
+  | .err e => showErr e
+  | .errAt e n => s!"{showErr e}@{n}"
+  | .stuck => "STUCK"
+
+def parseList (s : String) : Option (List Bytes) :=
+  if s == "~" then some [] else (s.splitOn ",").mapM parseHex
+
+def parseHdrs (s : String) : Option (List (Bytes × Bytes)) :=
+  if s == "~" then some [] else
+  (s.splitOn "&").mapM (fun kv =>
+    match kv.splitOn "=" with
+    | [k, v] => do pure ((← parseHex k), (← parseHex v))
+    | _ => none)
+
+def parseAction (s : String) : Option Action :=
+  match s.toList with
+  | ['R'] => some .read
+  | ['X'] => some .release
+  | ['S'] => some .skip
+  | ['L'] => some .readline
+  | 'C' :: r => do
+    let ns ← ((String.ofList r).splitOn ".").mapM (·.toNat?)
+    if ns.isEmpty then none else pure (.chunks ns)
+  | 'P' :: r =>
+    match (String.ofList r).splitOn "." with
+    | [k, n] => do pure (.partialRead (← k.toNat?) (← n.toNat?))
+    | _ => none
+  | _ => none
+
+def parseWPart (s : String) : Option WPart :=
+  match s.splitOn "|" with
+  | [h, c, z1, zf, q] => do
+    pure { headers := (← parseHdrs h), content := (← parseHex c), cz1 := (← parseHex z1),
+           czf := (← parseHex zf), qps := (← parseList q) }
+  | _ => none
+
+def showWErr : WErr → String
+  | .runtime => "err-runtime"
+  | .assertion => "err-assertion"
+  | .value => "err-value"
+  | .boundary => "err-boundary"
 
 def handle : List String → String
+  | ["rd", b, form, maxField, maxHeaders, maxSize, eofWithLast, limit, prefed, segs, descend, script] =>
+    match parseHex b, maxField.toNat?, maxHeaders.toNat?, maxSize.toNat?, limit.toNat?, prefed.toNat?,
+          parseList segs, (script.splitOn ",").mapM parseAction with
+    | some b, some mf, some mh, some ms, some lim, some k, some segs, some script =>
+      let segs := segs.filter (fun x => !x.isEmpty)
+      let ewl := parseBool eofWithLast
+      let s : Stream := { buf := (segs.take k).flatten, pending := segs.drop k,
+                          eof := ewl && k ≥ segs.length, eofWithLast := ewl, low := lim, high := 2 * lim }
+      let total := segs.flatten.length
+      let cfg : Cfg := { maxField := mf, maxHeaders := mh, maxSize := ms }
+      let f : Frame := { boundary := [45, 45] ++ b, isForm := parseBool form }
+      let evs := drive cfg script (parseBool descend) (total + 100) [(f, false)] s 0 []
+      " ".intercalate (evs.map showEv)
+    | _, _, _, _, _, _, _, _ => "bad-op"
+  | "wr" :: b :: form :: parts =>
+    match parseHex b, parts.mapM parseWPart with
+    | some b, some ps =>
+      if !boundaryOk b then showWErr .boundary else
+      match appendAll (parseBool form) 0 ps with
+      | .error e => showWErr e
+      | .ok as =>
+        match writeParts (parseBool form) b as with
+        | .error e => showWErr e
+        | .ok w => s!"ok {showHex w} size={showOptNat (sizeOf b as)} hdrs={"/".intercalate (as.map (fun a => showHdrs a.headers))}"
+    | _, _ => "bad-op"
+  | ["al", chunk, size, atEnd] =>
+    match parseHex chunk, size.toNat? with
+    | some c, some n => let r := alignB64 c n (parseBool atEnd); s!"{showHex r.1} {showHex r.2}"
+    | _, _ => "bad-op"
+  | ["b64", d] =>
+    match parseHex d with
+    | some d => showHex (b64enc d)
+    | none => "bad-op"
+  | ["win", sub, prev, chunk, first] =>
+    match parseHex sub, parseHex prev, parseHex chunk with
+    | some sub, some prev, some chunk =>
+      let r := windowStep sub prev chunk (parseBool first)
+      s!"{showHex r.1} {showHex r.2.1} {match r.2.2 with | some b => showHex b | none => "none"}"
+    | _, _, _ => "bad-op"
+  | ["mime", v] =>
+    match parseHex v with
+    | some v => let m := parseMimetype v; s!"{showHex m.type} {showHex m.subtype} {showHdrs m.params}"
+    | none => "bad-op"
+  | "hdr" :: lines =>
+    match lines.mapM parseHex with
+    | some ls =>
+      match parseHeaders (ls ++ [[]]) [] with
+      | .ok hs => "ok " ++ showHdrs hs
+      | .error e => showErr e
+    | none => "bad-op"
   | _ => "bad-op"
 
 end Aio.Driver.C19
